@@ -96,10 +96,14 @@ def run(src, program, cls, tags, variant=None, domain=None):
     for ob in eng.obls:
         if not ob.tags:
             ob.tags = tuple(tags)
-        ob.canonical_traits = (program == 'canonical')
+        ob.canonical_traits = program.startswith('canonical')
         ob.hyps = list(ob.hyps) + trait_instances(ob)
         if cls in POST_HINTS:
+            n0 = len(ob.hyps)
             ob.hyps = list(ob.hyps) + POST_HINTS[cls](ob)
+            if ob.canonical_traits and len(ob.hyps) > n0:
+                # the lemma instances compare values too: close == over those comparisons as well
+                ob.hyps = ob.hyps + pyeq_instances(ob, [], known=ob.hyps)
     return eng.obls, None, len(finals)
 
 
@@ -242,11 +246,18 @@ def trait_instances(ob):
             for y in range(x + 1, len(al)):
                 if al[x].args[0].smt() == al[y].args[0].smt() and al[x].args[3].smt() == al[y].args[3].smt():
                     out.append(t.eq(al[x], al[y]))
-    eqs = [e for e in find_apps(list(ob.hyps) + [ob.goal] + out, ('pyeq',))['pyeq'].values() if not has_bound_var(e)]
+    return out + pyeq_instances(ob, out)
+
+
+def pyeq_instances(ob, out, known=()):
+    """ground instances of the equivalence laws of == over the comparisons occurring in the obligation (and in `out`)"""
+    have = {x.smt() for x in known}
+    eqs = [e for e in find_apps(list(ob.hyps) + [ob.goal] + list(out), ('pyeq',))['pyeq'].values() if not has_bound_var(e)]
+    out = []
     for e in eqs:
         # == is reflexive (lemma pyeq_reflexive, proved by induction over the byte comparison): ground instance
         out.append(t.implies(t.eq(e.args[0], e.args[1]), e))
-    if getattr(ob, 'canonical_traits', False) and len(eqs) <= 12:
+    if getattr(ob, 'canonical_traits', False) and len(eqs) <= 48:
         # == is symmetric and transitive on the modelled values (lemmas pyeq_symmetric / pyeq_transitive): ground instances
         terms = {}
         for e in eqs:
@@ -262,4 +273,4 @@ def trait_instances(ob):
                                          ((e1.args[1], e1.args[0]), (e2.args[0], e2.args[1])), ((e1.args[1], e1.args[0]), (e2.args[1], e2.args[0]))):
                     if m1.smt() == m2.smt() and a.smt() != c.smt():
                         out.append(t.implies(t.and_(t.app('pyeq', t.BOOL, a, m1), t.app('pyeq', t.BOOL, m2, c)), t.app('pyeq', t.BOOL, a, c)))
-    return out
+    return [x for x in out if x.smt() not in have]
